@@ -69,6 +69,7 @@ class Alphabet:
 
 
 def probe_frames(tc: bool, mid: int, live_ids: Sequence[int], sizes=(0, 4), tag: int = 0) -> List[bytes]:
+    """(see also _run_probes: the largest probe is additionally written as two TCP segments)"""
     """The probe set published by one client in one state (see DESIGN 3.2)."""
     out = []
     n = 0
@@ -112,6 +113,7 @@ class HubConfig:
         self.probes, self.sizes, self.pairs, self.nonwritable = probes, sizes, pairs, nonwritable
         self.max_states, self.fin_grace, self.props = max_states, fin_grace, tuple(props)
         self.alpha = Alphabet(tc, ids)
+        self.nw_ops = False  # additionally run every single-send operation with the sender / each logger reported not writable
         self.post = None  # optional hook(cfg, info_before, label, env_after) -> list of problems
 
 
@@ -154,7 +156,11 @@ def _run_probes(cfg: HubConfig, env: lock.Env, stats: Dict[str, int], nonwritabl
     for i, (slot, mid) in enumerate(live):
         frames = probe_frames(cfg.tc, mid, ids, cfg.sizes, tag=i)
         env.send(slot, b"".join(frames))
-        stats["probes"] = stats.get("probes", 0) + len(frames)
+        # one more frame whose header+first payload bytes and remaining payload arrive as two TCP segments
+        big = P.mkframe(T1, bytes((7 * k + i) & 0xFF for k in range(max(cfg.sizes) or 8)), timecode=cfg.tc, src_mod_id=mid)
+        cut = P.hstruct(cfg.tc).size + 3
+        env.apply(["send2", slot, big[:cut].hex(), big[cut:].hex()])
+        stats["probes"] = stats.get("probes", 0) + len(frames) + 1
         any_sent = True
     if not any_sent:
         return
@@ -244,6 +250,21 @@ def expand(args) -> Dict[str, Any]:
                 children.append((hist + [list(ev) for ev in evs] + [["settle"]], e2.key(), label))
         finally:
             e2.close()
+        if cfg.nw_ops and all(x[0] == "send" for x in evs):
+            sender = evs[0][1]
+            others = [s for s in info["present"] if s != sender][:3]
+            for nwset in [[sender]] + [[o] for o in others] + [[sender] + others[:1]]:
+                e3 = _build(cfg, hist)
+                try:
+                    for ev in evs:
+                        e3.apply(ev)
+                    e3.round(0, nwset)
+                    e3.settle()
+                    stats["nonwritable_op_transitions"] = stats.get("nonwritable_op_transitions", 0) + 1
+                    for p in e3.problems:
+                        problems.append((p, e3.hist[:]))
+                finally:
+                    e3.close()
     # 3. pairs of operations by two different clients made visible before the same round
     if cfg.pairs != "none":
         single = [(l, e) for l, e in ops if all(x[0] in ("send", "fin", "rst") for x in e)]
